@@ -527,19 +527,69 @@ def errclass(s):
 FORMATS = ("binary", "binary-header", "notation", "xml", "zip")
 
 
-def roundtrip(m, fmt, v):
+def fmt_bytes(m, fmt, v):
     L = m.llsd
     if fmt == "binary":
-        return L.parse_binary(L.format_binary(v, with_header=False))
+        return L.format_binary(v, with_header=False)
     if fmt == "binary-header":
-        return L.parse_binary(L.format_binary(v, with_header=True))
+        return L.format_binary(v, with_header=True)
     if fmt == "notation":
-        return L.parse_notation(L.format_notation(v))
+        return L.format_notation(v)
     if fmt == "xml":
-        return L.parse_xml(L.format_xml(v))
+        return L.format_xml(v)
     if fmt == "zip":
-        return L.unzip_llsd(L.zip_llsd(v))
+        return L.zip_llsd(v)
     raise ValueError(fmt)
+
+
+def parse_bytes(m, fmt, b):
+    L = m.llsd
+    if fmt in ("binary", "binary-header"):
+        return L.parse_binary(b)
+    if fmt == "notation":
+        return L.parse_notation(b)
+    if fmt == "xml":
+        return L.parse_xml(b)
+    if fmt == "zip":
+        return L.unzip_llsd(b)
+    raise ValueError(fmt)
+
+
+def roundtrip(m, fmt, v):
+    return parse_bytes(m, fmt, fmt_bytes(m, fmt, v))
+
+
+def scribble(v):
+    """mutate every container reachable from a parse result (to expose aliasing between two results)"""
+    if isinstance(v, dict):
+        for x in list(v.values()):
+            scribble(x)
+        v["\x00scribble"] = 1
+    elif isinstance(v, list):
+        for x in v:
+            scribble(x)
+        v.append("\x00scribble")
+
+
+def codec_side_effects(m, fmt, v):
+    """format_* must leave its argument as it was and give the same bytes again; two parses of the same bytes must
+    not share containers.  None or a (why, class) pair."""
+    before = enc(m, v)
+    b1 = fmt_bytes(m, fmt, v)
+    if enc(m, v) != before:
+        return "the formatter changed its argument", "codec-mutates-argument"
+    b2 = fmt_bytes(m, fmt, v)
+    if b1 != b2:
+        return "formatting the same value twice gave different bytes", "codec-not-repeatable"
+    r1 = parse_bytes(m, fmt, b1)
+    r2 = parse_bytes(m, fmt, b1)
+    e2 = enc(m, r2)
+    if enc(m, r1) != e2:
+        return "parsing the same bytes twice gave different values", "codec-not-repeatable"
+    scribble(r1)
+    if enc(m, r2) != e2 or enc(m, v) != before:
+        return "two parse results (or a result and the formatted value) share containers", "codec-results-alias"
+    return None
 
 
 def strip_class(m, v, cls):
@@ -568,6 +618,14 @@ def check_tree(m, fmt, v):
     if why:
         viol = {"clause": "LLSD value survives format/parse unchanged (same value, type, instant)", "format": fmt,
                 "why": why, "class": classify(m, fmt, v)}
+    if viol is None:
+        try:
+            se_ = codec_side_effects(m, fmt, v)
+        except Exception as e:
+            se_ = None          # a raising codec is what the round-trip clause above reports
+        if se_:
+            viol = {"clause": "LLSD value survives format/parse unchanged (same value, type, instant)", "format": fmt,
+                    "why": se_[0], "class": se_[1] + "-" + fmt}
     if viol is None and fmt == "notation" and keys_uris_nl_free(m, v):
         try:
             out = m.llsd.format_notation(v)
@@ -1075,7 +1133,8 @@ def suite_oracle(ctx, m):
         rule="corpus + exhaustive small scope + seeded random trees (depth<=4; all LLSD types; naive datetimes, UTC-aware "
              "datetimes as parse_binary returns them, dates; XML-legal text without CR for the XML leg, arbitrary text "
              "otherwise); parse(format(v)) must have the same LLSD type, value (reals by bits) and instant; notation output "
-             "of a tree whose keys and URIs have no newline must contain no 0x0A; non-trivial = tree with a container, "
+             "of a tree whose keys and URIs have no newline must contain no 0x0A; side effects: a formatter leaves its argument "
+             "unchanged and is repeatable, two parses of the same bytes are equal and share no containers; non-trivial = tree with a container, "
              "date, URI or string")
     rng = ctx.rng
     trees = []
@@ -1343,7 +1402,61 @@ def same_exact(m, a, b, path="$"):
     return None
 
 
+def check_message_reuse(m, ser, msg):
+    """The in-memory (event-queue) form is an object the proxy keeps using: it is deserialized for the handlers, then
+    formatted to XML for the viewer and deserialized again by the logger.  Converting must not consume it.
+      (a) deserialize(d) leaves d as it was        (b) deserialize(d) a second time gives the original message
+      (c) format_xml(d) after (a) still deserializes to the original and is the XML serialize(msg) gives
+      (d) serialize leaves the Message as it was and gives equal forms when repeated"""
+    import copy
+    clause = "message -> LLSD form -> message equals the original (in-memory form reused, XML form of the same dict)"
+
+    def viol(why):
+        return {"clause": clause, "form": "reuse", "message": msg.name, "why": why, "class": "message-llsd-form-not-reusable",
+                "body": json.loads(json.dumps(enc_msg(m, orig)))}
+    orig = copy.deepcopy(msg.to_dict())
+    try:
+        d1 = ser.serialize(msg, as_dict=True)
+        x1 = ser.serialize(msg)
+        why = same_exact(m, orig, msg.to_dict())
+        if why:
+            return viol("(d) serialize changed the Message: " + why)
+        d2 = ser.serialize(msg, as_dict=True)
+        why = same_exact(m, d1, d2) or (None if ser.serialize(msg) == x1 else "$: XML differs")
+        if why:
+            return viol("(d) serializing twice gave different forms: " + why)
+        if any(a is b for blks_a, blks_b in zip(d1["body"].values(), d2["body"].values()) for a, b in zip(blks_a, blks_b)):
+            return viol("(d) two serialized forms share their block dicts")
+        snap = copy.deepcopy(d1)
+        b1 = ser.deserialize(d1)
+        why = same_exact(m, orig, b1.to_dict())
+        if why:
+            return viol("first deserialize: " + why)
+        why = same_exact(m, snap, d1)
+        if why:
+            return viol("(a) deserialize changed the caller's dict form: " + why)
+        b2 = ser.deserialize(d1)
+        why = same_exact(m, orig, b2.to_dict())
+        if why:
+            return viol("(b) second deserialize of the same dict: " + why)
+        xml = m.llsd.format_xml(d1)
+        if xml != x1:
+            return viol("(c) format_xml(dict form) after deserialize differs from serialize(msg)")
+        b3 = ser.deserialize(xml)
+        why = same_exact(m, orig, b3.to_dict())
+        if why:
+            return viol("(c) dict form -> XML -> message: " + why)
+        why = same_exact(m, snap, d1) or same_exact(m, orig, msg.to_dict())
+        if why:
+            return viol("(a) inputs changed by later conversions: " + why)
+    except Exception as e:
+        return viol("raised " + type(e).__name__ + ": " + str(e)[:160])
+    return None
+
+
 def check_message(m, ser, msg, form):
+    if form == "reuse":
+        return check_message_reuse(m, ser, msg)
     orig = msg.to_dict()
     try:
         if form == "dict":
@@ -1459,7 +1572,9 @@ def suite_messages(ctx, m):
              "(ints at both range ends incl. U32/U64/S64 packed as binary, F32/F64 reals by bits, vectors, wire-form "
              "quaternions, UUIDs, IPs, ports, text XML-legal without CR, raw bytes), Variable blocks 0..3 entries; "
              "serialize(as_dict) / serialize() (XML) then deserialize must give a message with the same to_dict(), values "
-             "compared with their Python types; non-trivial = message with at least one template-packed variable" % ctx.pick(2, 12))
+             "compared with their Python types; reuse probes per message: serialize leaves the Message unchanged and is "
+             "repeatable, deserialize leaves the caller's dict form unchanged (deep snapshot, types included), the same dict "
+             "deserializes a second time and, formatted to XML afterwards, again to the original message; non-trivial = message with at least one template-packed variable" % ctx.pick(2, 12))
     rng = ctx.rng
     ser = LLSDMessageSerializer()
     packed = set(t.name for t in m_packed_types(m))
@@ -1468,7 +1583,7 @@ def suite_messages(ctx, m):
     for j in load_corpus():
         if j.get("kind") == "message":
             msg = dec_msg(m, j["message"])
-            for form in ("dict", "xml"):
+            for form in ("dict", "xml", "reuse"):
                 res.evaluations += 1
                 v = check_message(m, ser, msg, form)
                 if v:
@@ -1489,7 +1604,7 @@ def suite_messages(ctx, m):
                     for blk in msg.blocks.get(b.name, ()):
                         for v in b.variables:
                             pairs.append((v.type, blk[v.name]))
-            for form in ("dict", "xml"):
+            for form in ("dict", "xml", "reuse"):
                 res.evaluations += 1
                 v = check_message(m, ser, msg, form)
                 if v:
@@ -1576,6 +1691,8 @@ def replay(ctx, case):
         return bool(vs), (vs[0] if vs else "holds")
     if "body" in case:
         from hippolyzer.lib.base.message.llsd_msg_serializer import LLSDMessageSerializer
-        v = check_message(m, LLSDMessageSerializer(), dec_msg(m, {"message": case["message"], "body": case["body"]}), case["form"])
+        mj = case["body"] if isinstance(case["body"], dict) and "body" in case["body"] and "message" in case["body"] \
+            else {"message": case["message"], "body": case["body"]}
+        v = check_message(m, LLSDMessageSerializer(), dec_msg(m, mj), case["form"])
         return (v is not None), (v or "holds")
     return False, "unrecognised case"
